@@ -790,3 +790,72 @@ Theorem shared_sample_buffer_refuted :
                 /\ forall r, List.In r dupw_rows -> (r_ts r, r_val r) = (2500, 302)%Z -> labels_get dupw_fetch (r_fp r) = dupw_x).
 Proof. exact shared_sample_buffer_witness. Qed.
 Print Assumptions shared_sample_buffer_refuted.
+
+(* ---------------- Round 8 (builder b8-c17): the assembly of Select for EVERY labels answer ----------------
+   prom_select_exact_series asks "one label set, one fingerprint" of the stored series; round 7 proved what acceptance by
+   the oracle means and compared model and oracle per case.  Here the MODEL of CLokiQuerier.Select's assembly
+   (select_series: row loop, MapResult, labelsGetter, ReshuffleSeries, final sort - the function the check compares with the
+   real Select on every generated row set) is proved to hand every label set to the engine once with exactly the samples
+   of all fingerprints stored under it, for every fingerprint-contiguous row list (what ORDER BY fingerprint gives), every
+   labels answer (label sets under any number of fingerprints, fingerprints without a labels row) and both MapResult flags. *)
+From Coq Require Import Permutation Sorted.
+From Qryn Require Import proofs.PromSelMergeProofs.
+
+Theorem select_merges_exactly_the_fingerprints_of_a_label_set : forall mr rows fetch,
+  contiguousb rows = true ->
+  let out := select_series mr rows fetch in
+  NoDup (map o_labels out)
+  /\ (forall o, List.In o out ->
+        List.In (o_fp o) (group_fps rows fetch (o_labels o))
+        /\ Permutation (o_samples o) (flat_map (own_samples mr rows) (group_fps rows fetch (o_labels o)))
+        /\ (forall fp, group_fps rows fetch (o_labels o) = [fp] -> o_fp o = fp /\ o_samples o = own_samples mr rows fp)
+        /\ ((List.length (group_fps rows fetch (o_labels o)) >= 2)%nat -> StronglySorted ts_le (o_samples o)))
+  /\ (forall fp, List.In fp (fps_of rows) -> exists o, List.In o out /\ o_labels o = labels_get fetch fp).
+Proof. exact select_series_merge_exact. Qed.
+Print Assumptions select_merges_exactly_the_fingerprints_of_a_label_set.
+
+(* the same in terms of stored rows: a sample of a series is (the MapResult image of) a row of a fingerprint under the series'
+   own label set, and every row reaches the engine inside the one series of its fingerprint's label set *)
+Theorem select_hands_each_row_to_its_own_label_set : forall mr rows fetch,
+  contiguousb rows = true ->
+  let out := select_series mr rows fetch in
+  NoDup (map o_labels out)
+  /\ (forall o smp, List.In o out -> List.In smp (o_samples o) ->
+        exists r, List.In r rows /\ labels_get fetch (r_fp r) = o_labels o /\ List.In smp (row_samples mr r))
+  /\ (forall r, List.In r rows ->
+        exists o, List.In o out /\ o_labels o = labels_get fetch (r_fp r)
+                  /\ forall smp, List.In smp (row_samples mr r) -> List.In smp (o_samples o)).
+Proof. exact select_hands_each_row_to_its_own_label_set_lemma. Qed.
+Print Assumptions select_hands_each_row_to_its_own_label_set.
+
+(* round 7's two acceptance theorems for every MapResult flag (were stated for mr = false) *)
+Theorem accepted_series_carry_only_their_own_rows_any_mr : forall mr rows fetch obs,
+  select_dup_exact_ok mr rows fetch obs = true ->
+  forall o smp, List.In o obs -> List.In smp (o_samples o) ->
+  exists r, List.In r rows /\ labels_get fetch (r_fp r) = o_labels o /\ List.In smp (row_samples mr r).
+Proof. exact accepted_series_carry_only_their_own_rows_any_mr_lemma. Qed.
+Print Assumptions accepted_series_carry_only_their_own_rows_any_mr.
+
+Theorem accepted_answers_lose_no_row_any_mr : forall mr rows fetch obs,
+  select_dup_exact_ok mr rows fetch obs = true ->
+  forall r, List.In r rows ->
+  exists o, List.In o obs /\ o_labels o = labels_get fetch (r_fp r)
+            /\ forall smp, List.In smp (row_samples mr r) -> List.In smp (o_samples o).
+Proof. exact accepted_answers_lose_no_row_any_mr_lemma. Qed.
+Print Assumptions accepted_answers_lose_no_row_any_mr.
+
+(* hypotheses satisfiable, conclusions non-trivial: the round-7 witness (X under 11 and 33, Y under 22 between them) is
+   contiguous, the model merges 11 and 33 into one ascending series and leaves 22 alone; with MapResult (count_over_time) on
+   a second row set the merged series carries r_val copies of (ts, 1) per row and the exact oracle accepts it *)
+Example select_merge_witnesses :
+  contiguousb dupw_rows = true
+  /\ select_series false dupw_rows dupw_fetch =
+     [ {| o_labels := dupw_x; o_fp := 11; o_samples := [(1000, 101); (1500, 301); (2000, 102); (2500, 302); (3000, 103); (3500, 303)] |};
+       {| o_labels := dupw_y; o_fp := 22; o_samples := [(1000, 201); (2000, 202); (3000, 203)] |} ]%Z%N
+  /\ group_fps dupw_rows dupw_fetch dupw_x = [11; 33]%N /\ group_fps dupw_rows dupw_fetch dupw_y = [22]%N
+  /\ contiguousb mrw_rows = true
+  /\ select_series true mrw_rows dupw_fetch =
+     [ {| o_labels := dupw_x; o_fp := 11; o_samples := [(1000, 1); (1000, 1); (2000, 1); (3000, 1)] |};
+       {| o_labels := dupw_y; o_fp := 22; o_samples := [(1000, 1); (1000, 1); (1000, 1)] |} ]%Z%N
+  /\ select_dup_exact_ok true mrw_rows dupw_fetch (select_series true mrw_rows dupw_fetch) = true.
+Proof. exact merge_witnesses. Qed.
